@@ -28,6 +28,17 @@ var vfE3InfoKeys = []string{"broadcast_address", "hostname", "http_port", "max_d
 	"max_output_buffer_size", "max_output_buffer_timeout", "start_time", "tcp_port", "topology_region", "topology_zone", "version"}
 
 var vfE3ErrBodyRe = regexp.MustCompile(`^\{"message":"([A-Z_]+)"\}$`)
+var vfE3RateRe = regexp.MustCompile(`^[+-]?[0-9]+$`)
+
+func vfE3ASCII(b []byte) bool {
+	for _, c := range b {
+		if c >= 0x80 {
+			return false
+		}
+	}
+	return true
+}
+
 var vfE3TLSBodyRe = regexp.MustCompile(`^\{"message": "TLS_REQUIRED", "https_port": -?[0-9]+\}$`)
 
 type vfE3Wire struct {
@@ -218,6 +229,24 @@ func vfE3HTTPXOp(v *vfE3Node, w []string) (string, []string) {
 	line := strings.ReplaceAll(strings.Join(w, " "), " ", "|")
 	if msg := vfE3WellFormed(path, rec); msg != "" {
 		fails = append(fails, fmt.Sprintf("ORACLE-FAIL key=http-malformed-response req=%s what=%s %s?%s: %s", line, method, path, query, msg))
+	}
+	// model-free: "400 for bad arguments" on the two routes whose argument grammar is standard-library
+	if rec.Code == 200 && method == "PUT" {
+		if path == "/config/nsqlookupd_tcp_addresses" && !json.Valid(body) {
+			fails = append(fails, fmt.Sprintf("ORACLE-FAIL key=config-bad-value-accepted req=%s what=PUT %s accepted a body that is not JSON: %q", line, path, vfE3Clip(body)))
+		}
+		if path == "/config/log_level" && vfE3ASCII(body) {
+			switch strings.ToLower(string(body)) {
+			case "debug", "info", "warn", "error", "fatal":
+			default:
+				fails = append(fails, fmt.Sprintf("ORACLE-FAIL key=config-bad-value-accepted req=%s what=PUT %s accepted %q, not one of the documented levels", line, path, vfE3Clip(body)))
+			}
+		}
+		if path == "/debug/setblockrate" {
+			if q, err := url.ParseQuery(query); err == nil && !vfE3RateRe.MatchString(q.Get("rate")) {
+				fails = append(fails, fmt.Sprintf("ORACLE-FAIL key=setblockrate-bad-rate-accepted req=%s what=PUT %s?%s answered 200 although rate is not an integer", line, path, query))
+			}
+		}
 	}
 	wire := vfE3CanonWire(method, path, query, rec)
 	if rec.Code == 500 && !(path == "/ping" && !healthy) {
